@@ -321,6 +321,9 @@ func tableFn(tbl [][2]interface{}) func(interface{}) interface{} {
 	}
 	return func(in interface{}) interface{} {
 		if out, ok := m[canonKey(in)]; ok {
+			if mm, isMap := out.(map[string]interface{}); isMap && mm["$panic"] != nil {
+				panic("scalar cannot represent this value")
+			}
 			return out
 		}
 		return nil
